@@ -344,7 +344,10 @@ def r3(ctx, lib):
     psl = backslice(b, [o.args[1]])
     ctx.check(1 in psl.params, rule, key + '|open-path', o.where(), 'opened path derives from the parameter', 'opened path does not derive from the parameter')
     fate = classify_result(b, o)
-    ctx.check('PROPAGATED' in fate.kinds, rule, key + '|open-err', o.where(), 'open failure propagated with ?', 'open failure not propagated: %s' % fate)
+    from ..analysis import return_variants_from
+    # `open(..).map_err(..)?`, or a `match` whose Err arm returns an error (it may first try the read-only probe, which returns on its own)
+    matched_err = 'MATCHED' in fate.kinds and bool(fate.err_arm_blocks) and all('Err' in return_variants_from(b, eb) for eb in fate.err_arm_blocks)
+    ctx.check('PROPAGATED' in fate.kinds or matched_err, rule, key + '|open-err', o.where(), 'open failure propagated (`?`, or an Err arm that returns an error)', 'open failure not propagated: %s' % fate)
     from ..analysis import result_tests, reachable_state
     locks = b.calls(r'lock::FileLock::fcntl_lock$')
     probes = b.calls(r'lock::FileLock::fcntl_test_lock$')
